@@ -29,6 +29,9 @@ type handlerInfo struct {
 	Core                                *ssa.Function
 	CoreCall                            *ssa.Call
 	CoreUrlIdx, CoreErrIdx, CoreFailIdx int
+	// a thin wrapper: `return p.handle(u, t, failure, "", nil)` - its own parameters handed on to the handler Forward
+	Forward     *handlerInfo
+	ForwardCall *ssa.Call
 }
 
 // body returns the function holding the handler's decision and, in it, the values standing for the URL, the
@@ -136,6 +139,79 @@ func buildErrModel(c *Ctx) *errModel {
 				}
 			}
 		}
+		// thin wrappers of a handler: their own (url, errorType, failure[, descr][, cause]) parameters handed on unchanged,
+		// constants for what they do not have, the handler's answer returned as it is. A call of the wrapper is a call
+		// of the handler.
+		for changed := true; changed; {
+			changed = false
+			for _, g := range c.P.ModFns {
+				if m.Handlers[g] != nil || core.PkgPathOf(g) != core.ModPath+"/url" || g.Parent() != nil || len(g.Blocks) == 0 {
+					continue
+				}
+				var hc *ssa.Call
+				n, other := 0, false
+				for _, b := range g.Blocks {
+					for _, ins := range b.Instrs {
+						switch x := ins.(type) {
+						case *ssa.Call:
+							if m.Handlers[x.Common().StaticCallee()] != nil {
+								hc = x
+								n++
+							} else {
+								other = true
+							}
+						case *ssa.Store, *ssa.MapUpdate, *ssa.Go, *ssa.Defer, *ssa.If:
+							other = true
+						}
+					}
+				}
+				if n != 1 || other {
+					continue
+				}
+				h := m.Handlers[hc.Common().StaticCallee()]
+				idxOf := func(v ssa.Value) int {
+					for i, p := range g.Params {
+						if ssa.Value(p) == v {
+							return i
+						}
+					}
+					return -1
+				}
+				args := hc.Common().Args
+				w := &handlerInfo{Fn: g, UrlIdx: idxOf(args[h.UrlIdx]), TypeIdx: idxOf(args[h.TypeIdx]), FailIdx: idxOf(args[h.FailIdx]), DescrIdx: -1, CauseIdx: -1, Ctor: h.Ctor, CtorCall: h.CtorCall, Forward: h, ForwardCall: hc}
+				if w.UrlIdx < 0 || w.TypeIdx < 0 || w.FailIdx < 0 {
+					continue
+				}
+				okRest := true
+				if h.DescrIdx >= 0 {
+					if i := idxOf(args[h.DescrIdx]); i >= 0 {
+						w.DescrIdx = i
+					} else if k, isK := constString(args[h.DescrIdx]); !isK || k != "" {
+						okRest = false
+					}
+				}
+				if h.CauseIdx >= 0 {
+					if i := idxOf(args[h.CauseIdx]); i >= 0 {
+						w.CauseIdx = i
+					} else if !isNilConst(args[h.CauseIdx]) {
+						okRest = false
+					}
+				}
+				// every return hands back the handler's answer
+				for _, b := range g.Blocks {
+					if r, isRet := b.Instrs[len(b.Instrs)-1].(*ssa.Return); isRet {
+						if len(r.Results) != 1 || r.Results[0] != ssa.Value(hc) {
+							okRest = false
+						}
+					}
+				}
+				if !okRest {
+					continue
+				}
+				m.Handlers[g] = w
+				changed = true
+			}
+		}
 		// helpers of the handlers: unexported functions of the package that are called (transitively) by handlers only —
 		// a shared core (`return p.report(u, e, failure)`), a recording helper, a predicate on the options. ERR-shape reads
 		// the handlers with these inlined; ERR-ni counts them as part of the handlers.
@@ -172,6 +248,9 @@ func buildErrModel(c *Ctx) *errModel {
 				for _, ins := range b.Instrs {
 					if call, ok := ins.(*ssa.Call); ok {
 						if h := m.Handlers[call.Common().StaticCallee()]; h != nil {
+							if w := m.Handlers[f]; w != nil && w.ForwardCall == call {
+								continue // the wrapper's own forwarding call is not a site: the calls of the wrapper are
+							}
 							calls = append(calls, call)
 						}
 					}
@@ -457,6 +536,11 @@ func init() {
 			for _, h := range hs {
 				key := "handler/" + core.FuncName(h.Fn)
 				pos := c.P.Pos(h.Fn.Pos())
+				if h.Forward != nil {
+					s.OK(key+"/wiring", pos, "hands its own url, errorType, failure (descr/cause) on to "+h.Forward.Fn.Name()+" unchanged (constants for what it does not have)")
+					s.OK(key+"/table", pos, "returns the answer of "+h.Forward.Fn.Name()+", whose table is checked")
+					continue
+				}
 				// (1) constructor argument wiring
 				var bad []string
 				for i, cp := range h.Ctor.Params {
@@ -755,6 +839,12 @@ func init() {
 							// accessor: only loaded and returned
 							ok := true
 							for _, r := range *fa.Referrers() {
+								// a copy that starts without recorded errors: nil stored into a URL allocated here
+								if st, isSt := r.(*ssa.Store); isSt && st.Addr == ssa.Value(fa) && isNilConst(st.Val) {
+									if _, fresh := fa.X.(*ssa.Alloc); fresh {
+										continue
+									}
+								}
 								u, isU := r.(*ssa.UnOp)
 								if !isU {
 									ok = false
